@@ -25,7 +25,7 @@ def main():
         scratch = "/tmp/rtosc-mut.%d" % os.getpid()
         shutil.rmtree(scratch, ignore_errors=True); os.makedirs(scratch)
         for sub in ("src", "include", "CMakeLists.txt"):
-            s = os.path.join("/repo", sub)
+            s = os.path.join(os.environ.get("VP_RUN_REPO", "/repo"), sub)
             (shutil.copytree if os.path.isdir(s) else shutil.copy)(s, os.path.join(scratch, sub))
         ok = True
         for (f, old, new) in edits:
